@@ -505,6 +505,31 @@ func sameValue(value1 *ast.Value, value2 *ast.Value) bool {
 	if value1.Kind != value2.Kind {
 		return false
 	}
+	switch value1.Kind {
+	case ast.ListValue:
+		// lists are equal item by item
+		if len(value1.Children) != len(value2.Children) {
+			return false
+		}
+		for i := range value1.Children {
+			if !sameValue(value1.Children[i].Value, value2.Children[i].Value) {
+				return false
+			}
+		}
+		return true
+	case ast.ObjectValue:
+		// input objects are equal field by field, in any order
+		if len(value1.Children) != len(value2.Children) {
+			return false
+		}
+		for _, child1 := range value1.Children {
+			child2 := value2.Children.ForName(child1.Name)
+			if child2 == nil || !sameValue(child1.Value, child2) {
+				return false
+			}
+		}
+		return true
+	}
 	if value1.Raw != value2.Raw {
 		return false
 	}
